@@ -3,6 +3,7 @@ package c02
 import (
 	"context"
 	"fmt"
+	"strings"
 	"time"
 
 	"verif/fw"
@@ -93,4 +94,77 @@ func bucket(n int) int {
 		return n / 10 * 10
 	}
 	return 50
+}
+
+// identicalRepinCase: every change that lands in the pinset is handed to the
+// tracker, also when it re-creates an entry byte-identical to one that was
+// there before. Pin P, unpin, pin the same P again (each waited for until it
+// is visible): the tracker must have been told track, untrack, track.
+func identicalRepinCase(c *fw.Ctx, idx int) {
+	ctx := context.Background()
+	r := c.Rand("repin")
+	mode := r.Pick("direct", "size", "age")
+	rep, err := newReplica(ctx, r.Intn(20), func(cfg *crdt.Config) {
+		switch mode {
+		case "size":
+			cfg.Batching.MaxBatchSize, cfg.Batching.MaxBatchAge, cfg.Batching.MaxQueueSize = 1, time.Hour, 50000
+		case "age":
+			cfg.Batching.MaxBatchSize, cfg.Batching.MaxBatchAge, cfg.Batching.MaxQueueSize = 1000000, 50*time.Millisecond, 50000
+		}
+	})
+	if err != nil {
+		c.Inconclusive("replica: " + err.Error())
+		return
+	}
+	defer rep.close()
+	ci := r.Intn(nCids)
+	p := mkPin(ci, "same", r)
+	visible := func(want bool) bool {
+		return waitUntil(5*time.Second, func() bool {
+			got, err := rep.content(ctx)
+			_, ok := got[ci]
+			return err == nil && ok == want
+		})
+	}
+	steps := []struct {
+		kind string
+		want bool
+	}{{"pin", true}, {"unpin", false}, {"pin", true}, {"unpin", false}, {"pin", true}}
+	n := r.Range(3, 5)
+	for k := 0; k < n; k++ {
+		st := steps[k]
+		cp := *p // the same record every time
+		if st.kind == "pin" {
+			err = rep.cons.LogPin(ctx, &cp)
+		} else {
+			err = rep.cons.LogUnpin(ctx, &cp)
+		}
+		if err != nil {
+			c.Inconclusive("submit: " + err.Error())
+			return
+		}
+		if !visible(st.want) {
+			c.Inconclusive("operation not visible within 5 s")
+			return
+		}
+	}
+	// the hooks run asynchronously to the state change: allow them a moment
+	wantCalls := n
+	ok := waitUntil(5*time.Second, func() bool {
+		rep.tmu.Lock()
+		defer rep.tmu.Unlock()
+		return len(rep.tracks) >= wantCalls
+	})
+	rep.tmu.Lock()
+	calls := append([]string{}, rep.tracks...)
+	rep.tmu.Unlock()
+	c.Eval(fmt.Sprintf("identical-repin/batching=%s/steps=%d", mode, n))
+	last := ""
+	if len(calls) > 0 {
+		last = calls[len(calls)-1]
+	}
+	finalPinned := steps[n-1].want
+	if !ok || (finalPinned && !strings.HasPrefix(last, "track")) || (!finalPinned && !strings.HasPrefix(last, "untrack")) {
+		c.Violation("C02/identical-repin/tracker-not-told-about-a-change", fmt.Sprintf("pin / unpin / pin of the same record (%d steps, batching %s): the tracker was told %v", n, mode, calls), nil)
+	}
 }
